@@ -11,12 +11,16 @@ import tricky
 from fractions import Fraction
 
 ACCOUNTS = ["a", "b", "c", "d"]
-DESTS = ["x", "y", "z", "a", "b"]
+DESTS = ["x", "y", "z", "a", "b", "c", "d"]
 KEYWORD_NAMES = ["remaining", "kept", "max", "to", "from", "source", "destination", "send", "save", "vars", "world", "allowing",
                  "unbounded", "overdraft", "up", "portion", "monetary", "account", "asset", "number", "string", "balance", "meta"]
 ASSETS = ["USD", "EUR/2"]
 # strings that output layers (printf, JSON/HTML escaping) treat specially; none contains a quote, a backslash or a newline
 META_STRINGS = [x for x in tricky.STRINGS if '"' not in x and "\\" not in x and "\n" not in x]
+# bodies of string literals with escaped quotes and backslashes (written as the LAST literal of their line; the value is
+# the body verbatim — the language does not unescape): an escaped quote first, in the middle, last; a lone backslash
+# before the closing quote (the lexer backs off from reading it as an escape)
+RAW_BODIES = ['say \\"hi\\"', '\\"', 'x\\"', '\\"x', 'C:\\', 'a\\\\b', '\\', 'a\\"b\\"', 'dir\\sub\\']
 BIG = 2 ** 64
 
 
@@ -517,7 +521,7 @@ def gen_meta_value(ctx):
     r = ctx.rng
     k = r.choice(["string", "number", "monetary", "account", "asset", "portion"])
     if k == "string":
-        s = r.choice(["hello", "", "a b", "é", "x:y"] + META_STRINGS)
+        s = r.choice(["hello", "", "a b", "é", "x:y"] + META_STRINGS + RAW_BODIES)
         if ctx.chance("str_var", 0.3):
             return ctx.declare("string", ('string', s), s), ('string', s)
         return '"%s"' % s, ('string', s)
@@ -762,6 +766,25 @@ def gen_case(seed, index, profile=None):
         extra.append(('set_tx_meta("same_entry", $%s)' % sn, ('txmeta', "same_entry", ('string', stored))))
     stmts = extra + stmts if rng.random() < 0.5 else stmts + extra
 
+    # aligned boundaries: the first source runs dry exactly where the first destination is full, so that consecutive
+    # postings change source AND destination at the same point (nothing to merge, nothing to split)
+    if not any(o for _, _, o in ctx.decls) and ctx.chance("aligned_shape", 0.04):
+        asset = rng.choice(ASSETS)
+        if rng.random() < 0.5:
+            s1, s2, d1, d2 = "a", "b", "c", "d"
+        else:
+            s1, s2 = rng.sample(ACCOUNTS, 2)
+            d1, d2 = rng.sample(DESTS, 2)
+        b1, b2 = rng.choice([3, 5, 10]), rng.choice([4, 6, 20])
+        ctx.balances[(s1, asset)] = b1
+        ctx.balances[(s2, asset)] = b2 + rng.choice([0, 0, 5])
+        n = b1 + rng.choice([1, b2, b2 // 2])
+        stmts.insert(0, ("send [%s %d] (\n  source = { @%s @%s }\n  destination = { max [%s %d] to @%s remaining to @%s }\n)" % (
+            asset, n, s1, s2, asset, b1, d1, d2),
+            ('send', asset, n, ('inorder', [('acct', s1, 0), ('acct', s2, 0)]),
+             ('inorder', [(b1, ('to', ('acct', d1)))], ('to', ('acct', d2))))))
+        ctx.features.add("aligned-boundaries")
+
     vars_block = ""
     if ctx.decls:
         rng.shuffle(ctx.decls) if not any(o for _, _, o in ctx.decls) else None
@@ -830,9 +853,13 @@ def rename_lookalike(case, gen):
     """the same case under names whose concatenations coincide: (v, USD), (vU, SD) and (vUS, D) all spell `vUSD`"""
     import re
     am, sm = LOOKALIKE_ACCOUNTS, LOOKALIKE_ASSETS
-    if len(case["script"]) % 2:
+    if len(case["script"]) % 3 == 1:
         # second family: segments shifted by one — (u, v:w) and (u:v, w) both read `u:v:w` once joined with a colon
         am = {"a": "u", "b": "u:v", "c": "v:w", "d": "w", "x": "x"}
+    elif len(case["script"]) % 3 == 2:
+        # third family: ordinary accounts whose names resemble the special one (other case, a prefix, a segment)
+        am = {"a": "World", "b": "WORLD", "c": "worlds", "d": "world:a", "x": "x"}
+        sm = {"USD": "USD", "COIN": "COIN", "EUR/2": "EUR/2"}
 
     def txt(t):
         t = re.sub(r"@(a|b|c|d|x)(?![a-zA-Z0-9_:-])", lambda m: "@" + am[m.group(1)], t)
